@@ -4,13 +4,16 @@ Model: coq/Model/Tracker.v (extracted).  Specification oracles: coq/Spec/Tracker
 Implementation: pyais.tracker.AISTracker through its public API (update, pop_track, cleanup, get_track, tracks,
 n_latest_tracks, register_callback, remove_callback, oldest_timestamp) under a controlled clock.
 
-A history is JSON: {'cfg': {'ordered': bool, 'ttl_q': int|None, 'base': int}, 'ops': [...]} with the operations
+A history is JSON: {'cfg': {'ordered': bool, 'ttl_q': int|None, 'base': int, 'beh': [...]}, 'ops': [...]} with the operations
   ['A', ev, cb] ['D', ev, cb]   register_callback / remove_callback   (ev in 'c','u','d'; cb = number of a callback)
   ['U', now_q, msg, ts_q|None]  clock := now, update(msg, ts)         (msg: {'s': [NMEA sentences]} or {'stub': ...})
   ['C', now_q]                  clock := now, cleanup()
   ['P', mmsi] / ['P', 'mmsi']   pop_track(mmsi) (int or numeric string)
   ['L', n]   ['G', mmsi]        queries n_latest_tracks(n) / get_track(mmsi)
 All times are integers in quarter seconds relative to cfg.base (seconds): binary64 arithmetic on them is exact.
+cfg.beh (optional) says what the callbacks do: a list of rules [cb, ev, mmsi|None, 'ExceptionClass'] -- callback cb, called
+for event ev with a track of that MMSI (None: any track), raises that exception; the first matching rule decides; a callback
+without a matching rule returns normally.  A history (and hence a replay) is self-contained.
 """
 import dataclasses
 import itertools
@@ -29,6 +32,11 @@ MMSIS = [227006760, 205448890, 786434, 1, 999999999, 366053209]
 BASES = [0, 1673259264]
 
 _real_time = _time.time
+# exception classes a callback of the harness may raise (all are classes of Prim/Exn.v; IndexError is a LookupError like
+# KeyError but NOT caught by `except KeyError`)
+RAISABLE = {'KeyError': KeyError, 'ValueError': ValueError, 'IndexError': IndexError, 'ZeroDivisionError': ZeroDivisionError,
+            'TypeError': TypeError, 'AttributeError': AttributeError, 'OverflowError': OverflowError}
+RAISERS = [3, 4, 5, 6, 7, 8]      # numbers of the callbacks that may get a raising behaviour (monitors are 100-102)
 
 
 class Clock:
@@ -238,8 +246,15 @@ def run_impl(h):
     else:
         ttl = ttl_q // q if ttl_q % q == 0 else ttl_q / q
     out = []
-    cur = {'events': [], 'deliv': [], 'live': True}
+    cur = {'events': [], 'deliv': [], 'live': True, 'raised': [], 'raised_obj': None}
     foreign_before = _FOREIGN['n']
+    rules = [tuple(r) for r in cfg.get('beh') or []]
+
+    def behaviour(cb, ev, mmsi):
+        for c, e2, m, x in rules:
+            if c == cb and e2 == ev and (m is None or m == mmsi):
+                return x
+        return None
 
     def snap(tr):
         if tr is None:          # an event delivered without a track (never for a correct tracker): keep it observable
@@ -249,27 +264,35 @@ def run_impl(h):
 
     cbs = {}
 
-    def callback(cb):
-        if cb not in cbs:
+    def callback(cb, ev):
+        # one Python callable per (callback number, event it is registered for): the callable only receives the
+        # track, so this is how it knows the event (register/remove identify a subscriber by the pair anyway)
+        if (cb, ev) not in cbs:
             letter = {v: k for k, v in MON.items()}.get(cb)
 
-            def f(track, cb=cb, letter=letter):
+            def f(track, cb=cb, ev=ev, letter=letter):
                 if not cur['live']:
                     # this subscriber belongs to a tracker of an EARLIER history: a correct tracker never reaches it
                     _FOREIGN['n'] += 1
                     return
                 s = snap(track)
-                cur['deliv'].append((cb, s))
+                cur['deliv'].append((cb, ev, s))
                 if letter:
                     cur['events'].append((letter, s))
-            cbs[cb] = f
-        return cbs[cb]
+                x = behaviour(cb, ev, s[0])
+                if x is not None:
+                    ex = RAISABLE[x](f'callback {cb} ({ev}) refuses track {s[0]}')
+                    cur['raised'].append((cb, ev, s[0], x))
+                    cur['raised_obj'] = ex
+                    raise ex
+            cbs[(cb, ev)] = f
+        return cbs[(cb, ev)]
 
     with Clock() as clock:
         tracker = e.pt.AISTracker(ttl_in_seconds=ttl, stream_is_ordered=cfg['ordered'])
         for op in h['ops']:
-            cur['events'], cur['deliv'] = [], []
-            rec = {'exn': None}
+            cur['events'], cur['deliv'], cur['raised'], cur['raised_obj'] = [], [], [], None
+            rec = {'exn': None, 'from_cb': False}
             try:
                 k = op[0]
                 if k == 'U':
@@ -286,9 +309,9 @@ def run_impl(h):
                     r = tracker.pop_track(op[1])
                     rec['ret'] = None if r is None else snap(r)
                 elif k == 'A':
-                    tracker.register_callback(e.EV[op[1]], callback(op[2]))
+                    tracker.register_callback(e.EV[op[1]], callback(op[2], op[1]))
                 elif k == 'D':
-                    tracker.remove_callback(e.EV[op[1]], callback(op[2]))
+                    tracker.remove_callback(e.EV[op[1]], callback(op[2], op[1]))
                 elif k == 'L':
                     rec['q'] = [snap(t) for t in tracker.n_latest_tracks(op[1])]
                 elif k == 'G':
@@ -296,8 +319,17 @@ def run_impl(h):
                     rec['q'] = None if r is None else snap(r)
             except Exception as ex:      # noqa: BLE001 - the class name is the observation
                 rec['exn'] = type(ex).__name__
+                rec['from_cb'] = ex is cur['raised_obj']     # the very exception object a callback of the harness raised
             rec['events'] = list(cur['events'])
             rec['deliv'] = list(cur['deliv'])
+            rec['raised'] = list(cur['raised'])
+            # the order in which cleanup() visited its set `to_be_deleted`, as far as a DELETED subscriber saw it
+            order = []
+            if op[0] in ('U', 'C'):
+                for cb, ev, s in cur['deliv']:
+                    if ev == 'd' and isinstance(s[0], int) and s[0] not in order:
+                        order.append(s[0])
+            rec['order'] = order
             rec['tracks'] = [snap(t) for t in tracker.tracks]
             rec['oldest'] = _q(tracker.oldest_timestamp, base, q)
             out.append(rec)
@@ -314,17 +346,25 @@ def _attrs_txt(view):
     return '.'.join(view) if view else '_'
 
 
-def model_line(h):
+def model_line(h, impl=None):
+    """The request that runs the history on the extracted model (trkc_step).  The callbacks' behaviours come from
+    cfg.beh; the iteration order of each cleanup()'s set of expired MMSIs is taken from the implementation's run (the
+    order in which its DELETED deliveries named them): CPython's set order is a function of the insertion sequence that
+    the model does not compute, every other observation is the model's own."""
     e = env()
     cfg = h['cfg']
     items = []
-    for op in h['ops']:
+    if cfg.get('beh'):
+        items.append('B=' + '+'.join(f"{c}:{ev}:{'*' if m is None else m}:{x}" for c, ev, m, x in cfg['beh']))
+    for i, op in enumerate(h['ops']):
         k = op[0]
+        order = impl[i].get('order') if impl is not None and i < len(impl) else None
+        osuf = (',' + '+'.join(map(str, order))) if order else ''
         if k == 'U':
             _, mmsi, view, _ = e.build(op[2])
-            items.append(f"U,{op[1]},{mmsi},{'N' if op[3] is None else op[3]},{_attrs_txt(view)}")
+            items.append(f"U,{op[1]},{mmsi},{'N' if op[3] is None else op[3]},{_attrs_txt(view)}{osuf}")
         elif k == 'C':
-            items.append(f'C,{op[1]}')
+            items.append(f'C,{op[1]}{osuf}')
         elif k in ('P', 'G'):
             items.append(f'{k},{int(op[1])}')
         elif k in ('A', 'D'):
@@ -359,6 +399,7 @@ def parse_model(reply, h):
             deliv = [] if f['D'] == '_' else [(int(c.split('~')[0]), c.split('~')[1], _track(c.split('~')[2]))
                                               for c in f['D'].split(',')]
             out.append({'exn': None if f['E'] == '-' else f['E'], 'calls': calls, 'deliv': deliv,
+                        'ret': None if f['R'] == 'N' else _track(f['R']),
                         'oldest': None if f['O'] == 'None' else int(f['O']), 'tracks': _tracks(f['T'])})
     return out
 
@@ -388,8 +429,9 @@ def compare(h, impl, model, with_cache=True):
             return i, 'tracks', b['tracks'], a['tracks']
         if with_cache and a['oldest'] != b['oldest']:
             return i, 'oldest_timestamp', b['oldest'], a['oldest']
-        da = sorted((cb, tr) for cb, tr in a['deliv'])
-        db = sorted((cb, tr) for cb, _, tr in b['deliv'])
+        # every callback invocation, in order (the model visits the expired MMSIs in the implementation's set order)
+        da = [(cb, ev, tr) for cb, ev, tr in a['deliv']]
+        db = [(cb, ev, tr) for cb, ev, tr in b['deliv']]
         if da != db:
             return i, 'deliveries', db, da
         # order: the calls of one MMSI are ordered (only the expiry of *different* MMSIs iterates a set)
@@ -397,9 +439,8 @@ def compare(h, impl, model, with_cache=True):
             if per_mmsi(a['events']) != per_mmsi(b['calls']):
                 return i, 'events', b['calls'], a['events']
         if k == 'P':
-            want = [tr for ev, tr in b['calls']]
-            if (a.get('ret') is None) != (not want) or (want and a['ret'] != want[0]):
-                return i, 'pop_track result', want, a.get('ret')
+            if a.get('ret') != b['ret']:
+                return i, 'pop_track result', b['ret'], a.get('ret')
     return None
 
 
@@ -425,6 +466,13 @@ def mode(h):
 
 def _plus(xs):
     return '+'.join(str(x) for x in xs) if xs else '_'
+
+
+def accepted(a):
+    """update(): the message was accepted (the table was changed and CREATED/UPDATED propagated).  An update() that
+    raises the very exception object one of the harness's callbacks raised got that far; any other exception is a
+    rejection."""
+    return a['exn'] is None or a.get('from_cb', False)
 
 
 def oracle_lines(h, impl):
@@ -469,7 +517,7 @@ def oracle_lines(h, impl):
             trace.extend(f'{ev}~{tr[0]}' for ev, tr in a['events'])
             before = {tr[0] for tr in prev}
             after = {tr[0] for tr in a['tracks']}
-            target = e.build(op[2])[1] if (k == 'U' and a['exn'] is None) else None
+            target = e.build(op[2])[1] if (k == 'U' and accepted(a)) else None
             touched = {tr[0] for _, tr in a['events']} | (before ^ after)
             last = not any(o[0] in ('U', 'C', 'P') for o in h['ops'][i + 1:])
             for m in ms:
@@ -497,6 +545,7 @@ def evaluate(h, impl, lines, index, replies):
     # ---- C12
     spec_steps = ans[('spec',)].split('|') if ms else []
     prev_tracks, prev_oldest = [], None
+    escaped_before = False          # an exception raised by a subscriber has left an earlier operation of this history
     for i, (op, a) in enumerate(zip(h['ops'], impl)):
         k = op[0]
         if k in ('L', 'G'):
@@ -514,20 +563,21 @@ def evaluate(h, impl, lines, index, replies):
             want, rejected = {}, False
         keys = [tr[0] for tr in a['tracks']]
         sig = {'entry': {'U': 'update', 'C': 'cleanup', 'P': 'pop_track'}.get(k, 'register_callback'), 'mode': md}
+        refused = k == 'U' and not accepted(a)      # update() raised, and not because a subscriber raised
         if k == 'U':
-            if rejected and a['exn'] is None:
+            if rejected and not refused:
                 bad.append(('C12', i, dict(sig, component='acceptance', kind='wrongly-accepted'),
                             f'step {i}: update older than the track (or out of order) was accepted'))
-            elif not rejected and a['exn'] is not None:
+            elif not rejected and refused:
                 bad.append(('C12', i, dict(sig, component='acceptance', kind=f'wrongly-rejected:{a["exn"]}'),
                             f'step {i}: update raised {a["exn"]} although it is neither older than its track nor out of order'))
-            if a['exn'] is not None and (a['tracks'] != prev_tracks or a['oldest'] != prev_oldest):
+            if refused and (a['tracks'] != prev_tracks or a['oldest'] != prev_oldest):
                 bad.append(('C12', i, dict(sig, component='state-after-rejection', kind='changed'),
                             f'step {i}: rejected update changed the state: {prev_tracks} -> {a["tracks"]}, '
                             f'oldest {prev_oldest} -> {a["oldest"]}'))
         if len(set(keys)) != len(keys):
             bad.append(('C12', i, dict(sig, component='track-set', kind='duplicated'), f'step {i}: two tracks of one MMSI: {keys}'))
-        if not (k == 'U' and a['exn'] is not None and not rejected):
+        if not (refused and not rejected):
             have = {tr[0]: tr for tr in a['tracks']}
             for m in ms:
                 if m in want and m not in have:
@@ -564,10 +614,20 @@ def evaluate(h, impl, lines, index, replies):
                     stale = [tr[0] for tr in a['tracks'] if now - tr[1] >= T]
                     fresh = [tr[0] for tr in dels if now - tr[1] < T]
                     if stale:
-                        bad.append(('C13', i, dict(sig, component='expiry', kind='not-expired'),
+                        # Known finding (findings_tracker.json): after a callback's exception ESCAPED an earlier
+                        # update()/cleanup(), oldest_timestamp may no longer be a lower bound (None, or later than a
+                        # track that is still in the table) and cleanup() returns early.  Only that situation gets the
+                        # signature of the finding; every other surviving expired track is a new violation.
+                        lus = [tr[1] for tr in a['tracks'] if tr[0] in stale]
+                        cache_stale = escaped_before and all(prev_oldest is None or (isinstance(prev_oldest, int) and lu < prev_oldest)
+                                                             for lu in lus)
+                        kind = 'not-expired:oldest_timestamp-not-a-lower-bound-after-callback-exception' if cache_stale else 'not-expired'
+                        bad.append(('C13', i, dict(sig, component='expiry', kind=kind),
                                     f'step {i}: after {sig["entry"]}() at t={now}/4 s with ttl {T}/4 s the tracks {stale} remain '
                                     f'although their age has reached the ttl: '
-                                    + ', '.join(f'{tr[0]}: age {now - tr[1]}/4 s' for tr in a['tracks'] if tr[0] in stale)))
+                                    + ', '.join(f'{tr[0]}: age {now - tr[1]}/4 s' for tr in a['tracks'] if tr[0] in stale)
+                                    + (f' (oldest_timestamp was {prev_oldest} before the call: an earlier operation was left '
+                                       f'by an exception of a subscriber)' if cache_stale else '')))
                     if fresh:
                         bad.append(('C13', i, dict(sig, component='expiry', kind='wrongly-expired'),
                                     f'step {i}: at t={now}/4 s with ttl {T}/4 s expiry removed {fresh} whose age is below the ttl'))
@@ -605,6 +665,8 @@ def evaluate(h, impl, lines, index, replies):
                 if tr[0] not in ms:
                     bad.append(('C15', i, dict(sig, component='events', kind='foreign-mmsi'), f'step {i}: event for unseen MMSI {tr[0]}'))
         prev_tracks, prev_oldest = a['tracks'], a['oldest']
+        if a.get('from_cb') and k in ('U', 'C'):      # Proofs/TrackerCbProofs.v step_ok: pop_track may raise anything
+            escaped_before = True
     # ---- C14
     for i, (op, a) in enumerate(zip(h['ops'], impl)):
         if op[0] == 'L' and op[1] >= 0:
@@ -636,7 +698,7 @@ def features(h, impl):
             f.add('update')
             f.add('class:' + env().build(op[2])[3])
             f.add('ts:default' if op[3] is None else 'ts:explicit')
-            if a['exn']:
+            if not accepted(a):
                 f.add('rejected')
             m = env().build(op[2])[1]
             for tr in prev:
@@ -644,7 +706,7 @@ def features(h, impl):
                     f.add('ts-equals-own-track')
                 if tr[0] != m and op[3] is not None and tr[1] == op[3]:
                     f.add('ts-equals-other-track')
-            if a['exn'] is None and m in {t[0] for t in prev}:
+            if accepted(a) and m in {t[0] for t in prev}:
                 f.add('merge')
             if any(ev == 'c' for ev, _ in a['events']) and any(ev == 'd' and tr[0] == m for ev, tr in a['events']):
                 f.add('created-and-expired-at-once')
@@ -666,7 +728,7 @@ def features(h, impl):
                 if True in seq and False in seq:
                     f.add('stale-and-fresh-mixed')
         if k == 'P':
-            f.add('pop:hit' if a.get('ret') else 'pop:miss')
+            f.add('pop:hit' if (a.get('ret') or a.get('raised')) else 'pop:miss')
         if k == 'C':
             f.add('cleanup')
         if k == 'L':
@@ -681,6 +743,53 @@ def features(h, impl):
             prev = a['tracks']
     if any(op[0] in ('A', 'D') and op[2] < 100 for op in h['ops']):
         f.add('broker-ops')
+    return f
+
+
+def cb_features(h, model):
+    """What the raising subscribers of this history do -- measured on the MODEL's run (the reference behaviour), so that
+    the generator self-check does not depend on how a changed implementation treats exceptions."""
+    f = set()
+    cfg = h['cfg']
+    rules = [tuple(r) for r in cfg.get('beh') or []]
+    if not rules:
+        return f
+
+    def behaviour(cb, ev, mmsi):
+        for c, e2, m, x in rules:
+            if c == cb and e2 == ev and (m is None or m == mmsi):
+                return x
+        return None
+    subs = []                      # the subscriber list, as register_callback / remove_callback build it
+    for op, b in zip(h['ops'], model):
+        k = op[0]
+        if k == 'A':
+            subs.append((op[1], op[2]))
+        elif k == 'D' and (op[1], op[2]) in subs:
+            subs.remove((op[1], op[2]))
+        if k not in ('U', 'C', 'P'):
+            continue
+        raised = [(cb, ev, tr[0], behaviour(cb, ev, tr[0])) for cb, ev, tr in b['deliv'] if behaviour(cb, ev, tr[0])]
+        escaped = b['exn'] is not None and bool(b['calls'])        # Props/C15.v C15_exception_origin
+        for cb, ev, m_, x in raised:
+            if (ev, cb) in subs and any(e2 == ev for e2, _ in subs[subs.index((ev, cb)) + 1:]):
+                f.add('cb:subscriber-loop-truncated')
+            if ev == 'd' and x == 'KeyError':
+                f.add('cb:keyerror-swallowed')
+                if k in ('U', 'C'):
+                    f.add('cb:expiry-with-keyerror-subscriber')
+            f.add({'c': 'cb:created-subscriber-raises', 'u': 'cb:updated-subscriber-raises', 'd': 'cb:deleted-subscriber-raises'}[ev])
+        if k == 'P' and raised:
+            f.add('cb:pop-with-raising-subscriber')
+        if escaped:
+            f.add('cb:exception-escaped')
+            if k in ('U', 'C') and any(ev == 'd' for _, ev, _, _ in raised):
+                f.add('cb:cleanup-aborted')
+                if cfg['ttl_q'] is not None and any(op[1] - tr[1] >= cfg['ttl_q'] for tr in b['tracks']):
+                    f.add('cb:cleanup-aborted-leaving-expired')
+        if k in ('U', 'C') and b['exn'] is None and any(ev == 'd' for _, ev, _, _ in raised) \
+                and sum(1 for ev, _ in b['calls'] if ev == 'd') >= 2:
+            f.add('cb:several-expired-one-raises')
     return f
 
 
@@ -705,7 +814,7 @@ def check_histories(ctx, prop, hs, queries_only_for=('C14',), sample_every=401, 
     for c0 in range(0, len(hs), chunk):
         part = hs[c0:c0 + chunk]
         impls = [run_impl(h) for h in part]
-        mlines = [model_line(h) for h in part]
+        mlines = [model_line(h, a) for h, a in zip(part, impls)]
         ol = [oracle_lines(h, a) for h, a in zip(part, impls)]
         if ctx.model is None:
             for h in part:
@@ -734,6 +843,9 @@ def check_histories(ctx, prop, hs, queries_only_for=('C14',), sample_every=401, 
                                     f'different AISTracker object (created earlier in the same process) -- history: ' + short(h),
                               {'history': h, 'previous': a[-1].get('previous'), 'step': len(h['ops']) - 1, 'signature': fsig})
             model = parse_model(mr, h)
+            if want_features:
+                for ft in cb_features(h, model):
+                    rep.count(ft)
             diff = compare(h, a, model, with_cache=prop in ('C13', 'C14'))
             own = [b for b in bad if b[0] == prop]
             others = [b for b in bad if b[0] != prop]
@@ -743,6 +855,11 @@ def check_histories(ctx, prop, hs, queries_only_for=('C14',), sample_every=401, 
                 if key in seen:
                     continue
                 seen.add(key)
+                if 'after-callback-exception' in sig.get('kind', ''):
+                    # the recorded finding: report a few histories per signature, count the rest
+                    rep.count('known-finding:' + sig['kind'] + ':' + sig['entry'] + ':' + sig['mode'])
+                    if rep.dist.get('known-finding:' + sig['kind'] + ':' + sig['entry'] + ':' + sig['mode'], 0) > 3:
+                        continue
                 h2 = h
                 if key not in shrunk and len(shrunk) < 6:
                     shrunk.add(key)
@@ -824,9 +941,32 @@ def short(h):
 
 
 # ------------------------------------------------------------------------------------------------ generators
-def gen_history(rng, kind='mixed', with_queries=False, n_ops=None):
+def gen_behaviour(rng, ms):
+    """Subscribers that raise: -> (register_callback operations, rules).  Mostly DELETED subscribers raising KeyError
+    (which pop_track swallows), for every track or for one MMSI only (a registry that lacks that vessel), some raising
+    other classes (these escape), some CREATED/UPDATED subscribers."""
+    attach, rules = [], []
+    for cb in rng.sample(RAISERS, rng.choice([1, 1, 2, 3])):
+        ev = rng.choice('dddddcu')
+        attach.append(['A', ev, cb])
+        if rng.random() < 0.15 and ev != 'd':
+            attach.append(['A', 'd', cb])
+        for ev2 in {a[1] for a in attach if a[2] == cb}:
+            if rng.random() < 0.85:
+                m = rng.choice([None, None] + ms[:3])
+                if ev2 == 'd':
+                    x = 'KeyError' if rng.random() < 0.7 else rng.choice(['ValueError', 'IndexError', 'ZeroDivisionError'])
+                else:
+                    x = rng.choice(['KeyError', 'KeyError', 'ValueError', 'IndexError', 'TypeError'])
+                rules.append([cb, ev2, m, x])
+                if m is not None and rng.random() < 0.3:      # a second rule behind the first: another MMSI, another class
+                    rules.append([cb, ev2, None if rng.random() < 0.3 else rng.choice(ms), rng.choice(list(RAISABLE))])
+    return attach, rules
+
+
+def gen_history(rng, kind='mixed', with_queries=False, n_ops=None, raising=False):
     """A random history: 1-6 MMSIs, real messages of many classes (plus stubs), explicit / default / equal /
-    out-of-order timestamps, ttl None or small, both modes, ages around the ttl."""
+    out-of-order timestamps, ttl None or small, both modes, ages around the ttl.  raising: some subscribers raise."""
     ordered = rng.random() < 0.5
     ttl_q = rng.choice([None, None, 4, 8, 8, 12, 20, 6, 0])
     if kind == 'ttl' and ttl_q is None:
@@ -837,6 +977,12 @@ def gen_history(rng, kind='mixed', with_queries=False, n_ops=None):
     ops = [list(o) for o in MON_OPS]
     if kind == 'broker':
         rng.shuffle(ops)
+    rules, raisers = [], []
+    if raising:
+        if ttl_q is None and rng.random() < 0.7:
+            ttl_q = rng.choice([4, 8, 12])
+        raisers, rules = gen_behaviour(rng, ms)
+        ops.extend(raisers)           # after the monitors: the monitors see every event (C15 is judged on them)
     lus = {}            # the generator's own idea of the timestamps (only used to aim at boundaries)
     pools = {m: [real_message(rng, m) for _ in range(3)] + [stub_message(rng, m)] for m in ms}
     n_ops = n_ops or rng.choice([4, 8, 12, 20, 30])
@@ -884,6 +1030,9 @@ def gen_history(rng, kind='mixed', with_queries=False, n_ops=None):
             ops.append(['G', rng.choice(ms + [4242])])
         elif kind == 'broker':
             ops.append([rng.choice('AAD'), rng.choice('cud'), rng.choice([0, 1, 2, 0])])
+        elif raisers and rng.random() < 0.5:
+            a = rng.choice(raisers)                      # a raising subscriber leaves / comes back
+            ops.append([rng.choice('DDA'), a[1], a[2]])
         else:
             ops.append(['C', now])
         if with_queries and rng.random() < 0.5:
@@ -894,6 +1043,8 @@ def gen_history(rng, kind='mixed', with_queries=False, n_ops=None):
         for n in range(0, len(ms) + 2):
             ops.append(['L', n])
     cfg = {'ordered': ordered, 'ttl_q': ttl_q, 'base': base}
+    if rules:
+        cfg['beh'] = rules
     if rng.random() < 0.2:
         cfg['q'] = 4096      # the same history on a 1/4096 s grid: timestamps a fraction of a millisecond apart (a tolerance
         #                      in a comparison, a rounding of timestamps or a coarser clock only shows on such gaps)
@@ -933,6 +1084,60 @@ def directed_histories(rng):
     return hs
 
 
+def directed_raising(rng):
+    """Hand-aimed histories with subscribers that raise (both modes, two clock bases):
+    an expired track + a DELETED subscriber raising KeyError (for every track / only for the vessel its registry lacks);
+    several expired tracks and a subscriber that raises for one of them (KeyError: swallowed, the others still expire;
+    another class: cleanup() is left in the middle, then called again); explicit pop_track with a raising subscriber;
+    CREATED / UPDATED subscribers that raise; a second subscriber behind the raising one; the raising subscriber removed."""
+    hs = []
+    A, B, C = MMSIS[0], MMSIS[1], MMSIS[2]
+    for ordered in (False, True):
+        for base in BASES:
+            ra, rb, rc = real_message(rng, A, 1), real_message(rng, B, 5), real_message(rng, C, 18)
+
+            def mk(ops, beh, ttl=12, subs=None):
+                subs = subs if subs is not None else sorted({(r[1], r[0]) for r in beh})
+                return {'cfg': {'ordered': ordered, 'ttl_q': ttl, 'base': base, 'beh': [list(r) for r in beh]},
+                        'ops': [list(o) for o in MON_OPS] + [['A', ev, cb] for ev, cb in subs] + ops}
+            for x in ('KeyError', 'ValueError', 'IndexError'):
+                for who in (None, A):
+                    # one expired track, found by the update() of a fresh vessel and again by cleanup()
+                    hs.append(mk([['U', 0, ra, 0], ['U', 13, rb, 13], ['C', 13], ['C', 14], ['U', 30, rc, None], ['C', 60]],
+                                 [[7, 'd', who, x]]))
+                    # three tracks, all expired at once; then one by one (ages ttl-1, ttl, ttl+1 around the calls)
+                    for victim in (A, B, C):
+                        hs.append(mk([['U', 2, ra, 0], ['U', 2, rb, 1], ['U', 2, rc, 2], ['C', 11], ['C', 12], ['C', 13],
+                                      ['C', 14], ['C', 14], ['U', 40, ra, None], ['C', 52], ['C', 52]], [[7, 'd', victim, x]]))
+                        hs.append(mk([['U', 2, ra, 0], ['U', 2, rb, 1], ['U', 2, rc, 2], ['C', 30], ['C', 30], ['C', 31],
+                                      ['U', 31, rb, None], ['C', 43]], [[7, 'd', victim, x]]))
+                    # explicit pop_track: hit, hit again (absent now), another vessel, numeric string
+                    hs.append(mk([['U', 0, ra, 0], ['U', 0, rb, 1], ['P', A], ['P', A], ['P', str(B)], ['P', C], ['U', 1, ra, 1],
+                                  ['P', A], ['C', 40]], [[7, 'd', who, x]], ttl=None if x == 'IndexError' else 12))
+                    # CREATED / UPDATED subscribers that raise: the table is changed, update() raises, cleanup() is skipped
+                    hs.append(mk([['U', 0, ra, 0], ['U', 1, ra, 1], ['U', 1, rb, 1], ['U', 2, ra, None], ['C', 13], ['C', 14],
+                                  ['U', 14, rc, None], ['U', 20, rb, 2], ['C', 40]], [[7, 'c', who, x], [8, 'u', who, x]]))
+                    hs.append(mk([['U', 0, rb, 4], ['U', 0, ra, 0], ['C', 15], ['C', 16], ['U', 16, rc, 16], ['C', 30]],
+                                 [[7, 'c', who, x]]))
+                # a second DELETED subscriber behind the raising one never hears of the track; in front of it, it does
+                hs.append(mk([['U', 0, ra, 0], ['U', 0, rb, 0], ['C', 12], ['U', 12, ra, 12], ['P', A]],
+                             [[7, 'd', None, x]], subs=[('d', 8), ('d', 7), ('d', 6), ('c', 7)]))
+                # the raising subscriber is removed: everything is delivered again
+                hs.append(mk([['U', 0, ra, 0], ['U', 0, rb, 0], ['C', 12], ['D', 'd', 7], ['U', 13, ra, 13], ['U', 13, rb, 13],
+                              ['C', 25], ['A', 'd', 7], ['U', 26, rc, 26], ['P', C]], [[7, 'd', None, x]]))
+    return hs
+
+
+# behaviours of the enumerated histories (callback 7; vessels 111 and 222 as in enumerated_histories)
+ENUM_BEHS = [
+    [[7, 'd', None, 'KeyError']],
+    [[7, 'd', 111, 'KeyError']],
+    [[7, 'd', 111, 'ValueError']],
+    [[7, 'c', 222, 'KeyError'], [7, 'd', 222, 'KeyError']],
+    [[7, 'u', None, 'IndexError'], [7, 'd', 222, 'ZeroDivisionError']],
+]
+
+
 def enumerated_histories(max_len, configs=None):
     """All histories up to max_len over 2 MMSIs x 3 timestamps (explicit or default), pop, cleanup and a clock tick;
     message classes rotate with the position.  Generator of histories."""
@@ -944,11 +1149,14 @@ def enumerated_histories(max_len, configs=None):
                lambda m: {'stub': {'mmsi': m, 'attrs': {a3[0]: None} if a3 else {}}}]
     alphabet = [('U', m, ts) for m in (A, B) for ts in (0, 4, 8, None)] + [('P', A), ('P', B), ('C',), ('T',)]
     configs = configs or [(o, t) for o in (False, True) for t in (None, 4)]
-    for ordered, ttl in configs:
+    for config in configs:
+        ordered, ttl = config[0], config[1]
+        beh = config[2] if len(config) > 2 else None       # (ordered, ttl, rules): callback 7 registered for the rules' events
+        extra = [['A', ev, cb] for ev, cb in sorted({(r[1], r[0]) for r in beh})] if beh else []
         for ln in range(1, max_len + 1):
             for word in itertools.product(alphabet, repeat=ln):
                 now = 4
-                ops = [list(o) for o in MON_OPS]
+                ops = [list(o) for o in MON_OPS] + [list(o) for o in extra]
                 useful = False
                 for i, w in enumerate(word):
                     if w[0] == 'T':
@@ -961,7 +1169,10 @@ def enumerated_histories(max_len, configs=None):
                     else:
                         ops.append(['C', now])
                 if useful and word[-1][0] != 'T':
-                    yield {'cfg': {'ordered': ordered, 'ttl_q': ttl, 'base': 0}, 'ops': ops}
+                    cfg = {'ordered': ordered, 'ttl_q': ttl, 'base': 0}
+                    if beh:
+                        cfg['beh'] = [list(r) for r in beh]
+                    yield {'cfg': cfg, 'ops': ops}
 
 
 def add_queries(h):
@@ -983,13 +1194,19 @@ def self_check(ctx, needed):
 def run_common(ctx, prop):
     rng = ctx.rng
     with_q = prop == 'C14'
+    raising = prop != 'C12'          # C12 is stated (and checked) for subscribers that return normally
     hs = directed_histories(rng)
+    if raising:
+        hs += directed_raising(rng)
     if with_q:
         hs = [add_queries(h) for h in hs]
     n = ctx.budget(300 if with_q else 500, 6000)
     for i in range(n):
         kind = 'broker' if (prop == 'C15' and i % 4 == 0) or i % 10 == 0 else ('ttl' if prop == 'C13' or i % 2 else 'mixed')
         hs.append(gen_history(rng, kind, with_queries=with_q))
+    if raising:
+        for i in range(ctx.budget(120 if with_q else 200, 3000)):
+            hs.append(gen_history(rng, 'ttl' if i % 3 else 'mixed', with_queries=with_q, raising=True))
     check_histories(ctx, prop, hs)
     small = 3 if ctx.quick else 4
     en = list(enumerated_histories(small))
@@ -999,8 +1216,26 @@ def run_common(ctx, prop):
     ctx.rep.count('enumerated', len(en))
     ctx.rep.exhaustive.append(f'all histories of length <= {small} over 2 MMSIs x (3 explicit timestamps + default) x pop x '
                               f'cleanup x clock tick, both modes, ttl None and 1 s ({len(en)} histories)')
+    if raising:
+        # the same alphabet with a subscriber that raises (ttl 1 s, both modes): quick = the two KeyError behaviours up to
+        # length 2 + 3, thorough = all ENUM_BEHS up to length 3 here and length 4 in the workers
+        behs = ENUM_BEHS[:2] if ctx.quick else ENUM_BEHS
+        en = list(enumerated_histories(3, [(o, 4, b) for o in (False, True) for b in behs]))
+        if with_q:
+            en = [add_queries(h) for h in en]
+        check_histories(ctx, prop, en, sample_every=0, want_features=False)
+        ctx.rep.count('enumerated-raising', len(en))
+        ctx.rep.exhaustive.append(f'all histories of length <= 3 over the same alphabet with a subscriber (callback 7) that raises: '
+                                  f'{len(behs)} behaviours x both modes, ttl 1 s ({len(en)} histories)')
     if not ctx.quick:
         exhaustive(ctx, prop, 5)
+        if raising:
+            exhaustive(ctx, prop, 4, behs=ENUM_BEHS)
+    if (ctx.broken or ctx.rep.disagreements) and ctx.rep.violations and not new_violations(ctx) and hasattr(ctx, 'escalated'):
+        # tools/check.py starts the hunt only when there is no violation at all; the hits of the recorded finding
+        # (which the unchanged code shows as well) must not keep it from looking for a failing input
+        ctx.escalated = True
+        hunt_common(ctx, prop)
 
 
 def _worker(job):
@@ -1012,7 +1247,7 @@ def _worker(job):
     hs = []
     n = 0
     for i, h in enumerate(enumerated_histories(max_len, [cfg])):
-        if len(h['ops']) - 3 < max_len and max_len > 4:
+        if sum(1 for o in h['ops'] if o[0] != 'A') < max_len and max_len >= 4:
             continue                                   # shorter ones were done in the main process
         if i % nshards != shard:
             continue
@@ -1029,11 +1264,16 @@ def _worker(job):
     return {'n': n, 'violations': rep.violations[:20], 'disagreements': rep.disagreements[:5]}
 
 
-def exhaustive(ctx, prop, max_len):
-    """All histories of exactly max_len operations (see enumerated_histories), in parallel workers."""
+def exhaustive(ctx, prop, max_len, behs=None):
+    """All histories of exactly max_len operations (see enumerated_histories), in parallel workers; behs: with a
+    subscriber that raises (one run per behaviour, ttl 1 s)."""
     import multiprocessing as mp
     nshards = 8
-    jobs = [(prop, max_len, (o, t), s, nshards, ctx.seed) for o in (False, True) for t in (None, 4) for s in range(nshards)]
+    if behs:
+        nshards = 2
+        jobs = [(prop, max_len, (o, 4, b), s, nshards, ctx.seed) for o in (False, True) for b in behs for s in range(nshards)]
+    else:
+        jobs = [(prop, max_len, (o, t), s, nshards, ctx.seed) for o in (False, True) for t in (None, 4) for s in range(nshards)]
     total = 0
     with mp.Pool(min(16, os.cpu_count() or 4)) as pool:
         for res in pool.imap_unordered(_worker, jobs):
@@ -1043,17 +1283,29 @@ def exhaustive(ctx, prop, max_len):
                 ctx.rep.violations.append(v)
             for d in res['disagreements']:
                 ctx.rep.disagreements.append(d)
-    ctx.rep.count('enumerated', total)
-    ctx.rep.exhaustive.append(f'all histories of length {max_len} over the same alphabet ({total} histories)')
+    ctx.rep.count('enumerated-raising' if behs else 'enumerated', total)
+    ctx.rep.exhaustive.append(f'all histories of length {max_len} over the same alphabet'
+                              + (f' with a subscriber that raises ({len(behs)} behaviours, ttl 1 s)' if behs else '')
+                              + f' ({total} histories)')
+
+
+def new_violations(ctx):
+    """violations other than the recorded finding (which also occurs on the unchanged code)"""
+    return [v for v in ctx.rep.violations if 'after-callback-exception' not in (v.get('signature') or {}).get('kind', '')]
 
 
 def hunt_common(ctx, prop):
     """Something no longer checks: all histories up to length 5 over 2 MMSIs x 3 timestamps, then long random ones."""
     exhaustive(ctx, prop, 5)
-    if ctx.rep.violations:
+    if new_violations(ctx):
         return
+    if prop != 'C12':
+        exhaustive(ctx, prop, 4, behs=ENUM_BEHS)
+        if new_violations(ctx):
+            return
     rng = ctx.rng
-    hs = [gen_history(rng, 'ttl' if i % 2 else 'mixed', with_queries=prop == 'C14', n_ops=rng.choice([30, 60])) for i in range(3000)]
+    hs = [gen_history(rng, 'ttl' if i % 2 else 'mixed', with_queries=prop == 'C14', n_ops=rng.choice([30, 60]),
+                      raising=(prop != 'C12' and i % 3 == 0)) for i in range(3000)]
     check_histories(ctx, prop, hs, sample_every=0)
 
 
@@ -1091,25 +1343,44 @@ _COMMON_RULE = ('histories of AISTracker operations under a controlled clock (ti
                 '{None, 0, 1, 1.5, 2, 3, 5 s}, both modes, callbacks registered for all three events (plus random '
                 'register/remove of further callbacks) + every history up to length 3 (quick) / 5 (thorough) over 2 MMSIs x '
                 '(3 explicit timestamps + default) x pop x cleanup x clock tick in both modes with ttl None and 1 s; '
-                'a case is one history; distinct = distinct (configuration, operation list)')
+                'C13-C15 additionally with subscribers that RAISE (behaviour = rules (callback, event, MMSI or any, exception '
+                'class) carried by the history): hand-aimed (expired track + DELETED subscriber raising KeyError for every / '
+                'one vessel, several expired tracks and a subscriber raising for one of them, KeyError vs ValueError / '
+                'IndexError, explicit pop_track, raising CREATED / UPDATED subscribers, a subscriber behind the raising one, '
+                'the raising subscriber removed), PRNG-drawn (1-3 raising subscribers, 70 % KeyError on DELETED) and every '
+                'history up to length 3 (quick: 2 behaviours) / 4 (thorough: 5 behaviours) with a raising subscriber; '
+                'a case is one history; distinct = distinct (configuration incl. behaviours, operation list)')
 RULE = {
     'C12': _COMMON_RULE + '; after every operation tracks / get_track are compared with the log specification sp_track_of',
     'C13': _COMMON_RULE + '; after every update()/cleanup() the remaining and the expired tracks are judged by sp_ttl_okb',
     'C14': _COMMON_RULE + '; n_latest_tracks(n) is queried for n = 0 .. |tracks|+1 in the reached states and judged by sp_top_nb',
     'C15': _COMMON_RULE + '; the events of every operation are compared with sp_expected_events, the per-MMSI trace with sp_alive',
 }
-ASSUMPTIONS = ['callbacks do not call back into the tracker and do not raise',
+ASSUMPTIONS = ['callbacks do not call back into the tracker (they may raise: C13-C15 are checked with raising subscribers; C12 '
+               'is stated and checked for subscribers that return normally)',
+               'the monitor callbacks on which C15 is judged are registered before any subscriber that raises (a subscriber '
+               'behind a raising one does not receive the event: Props/C15.v C15_delivery_truncated)',
+               'for the model run the iteration order of the set of expired MMSIs of each cleanup() is read off the '
+               "implementation's DELETED deliveries (the theorems hold for every order)",
                'every callback is registered at most once per event for the oracle (double registration is exercised in '
                'the correspondence only)',
                'the clock is read at most at one value during one operation']
 TRUSTED_EXTRA = ['Prim/IntDict.v: dict insertion order, assignment to an existing key keeps its position, popitem() is LIFO; '
-                 'sorted() is stable (modelled by insertion sort); iteration order of a set of ints is unspecified (events of '
-                 'one expiry are compared per MMSI)',
+                 'sorted() is stable (modelled by insertion sort); iterating a set of ints visits exactly its elements, in '
+                 "an order the model takes as a parameter (the check reads it off the implementation's DELETED deliveries; "
+                 'Props/C13.v C13_driver_environments_ok)',
+                 'a callback is a function of (its number, the event, the track) during one operation: it returns or raises an '
+                 'exception of a class of Prim/Exn.v; `except KeyError` catches exactly KeyError (no modelled subclass)',
                  'messages reach the model as data: for every AISTrack field (dataclasses.fields) whether the decoded message '
                  'has the attribute (attr.fields) and its value as an opaque token']
 NEEDED = {
     'C12': {'merge': 0.05, 'rejected': 0.05, 'expiry': 0.05, 'pop:hit': 0.05, 'ts-equals-own-track': 0.05},
-    'C13': {'expiry': 0.05, 'stale-and-fresh-mixed': 0.05, 'age==ttl': 0.05, 'age==ttl-1': 0.02, 'age==ttl+1': 0.02},
-    'C14': {'n==0': 0.05, 'n==len': 0.05, 'n>len': 0.05, 'n<len': 0.05, 'n_latest:ties': 0.05},
-    'C15': {'expiry': 0.05, 'rejected': 0.05, 'pop:hit': 0.05, 'created-and-expired-at-once': 0.02, 'broker-ops': 0.05},
+    'C13': {'expiry': 0.05, 'stale-and-fresh-mixed': 0.05, 'age==ttl': 0.05, 'age==ttl-1': 0.02, 'age==ttl+1': 0.02,
+            'cb:expiry-with-keyerror-subscriber': 0.05, 'cb:several-expired-one-raises': 0.02, 'cb:exception-escaped': 0.03,
+            'cb:cleanup-aborted': 0.02, 'cb:pop-with-raising-subscriber': 0.02, 'cb:created-subscriber-raises': 0.02},
+    'C14': {'n==0': 0.05, 'n==len': 0.05, 'n>len': 0.05, 'n<len': 0.05, 'n_latest:ties': 0.05,
+            'cb:keyerror-swallowed': 0.05, 'cb:exception-escaped': 0.03},
+    'C15': {'expiry': 0.05, 'rejected': 0.05, 'pop:hit': 0.05, 'created-and-expired-at-once': 0.02, 'broker-ops': 0.05,
+            'cb:keyerror-swallowed': 0.05, 'cb:exception-escaped': 0.03, 'cb:subscriber-loop-truncated': 0.02,
+            'cb:created-subscriber-raises': 0.02, 'cb:updated-subscriber-raises': 0.02},
 }
